@@ -52,8 +52,9 @@ func runSolver(ctx context.Context, sc solverCfg, file string, secs, seed int) (
 	s := buf.String()
 	first := strings.TrimSpace(strings.SplitN(strings.TrimSpace(s), "\n", 2)[0])
 	if first != "sat" && first != "unsat" {
-		if first != "unknown" && first != "timeout" && first != "" {
-			first = "unknown(" + first + ")"
+		if strings.Contains(first, "error") || strings.Contains(first, "Error") {
+			first = "error"
+			solverErrors.Store(sc.name+": "+strings.SplitN(s, "\n", 2)[0], true)
 		} else {
 			first = "unknown"
 		}
@@ -108,6 +109,8 @@ func solvePortfolio(script string, secs, seed int) SolveResult {
 	res.Secs = time.Since(t0).Seconds()
 	return res
 }
+
+var solverErrors sync.Map // malformed scripts are machinery errors, never violations
 
 var scratch string
 
